@@ -9,6 +9,7 @@ import (
 	"context"
 	"errors"
 	"fmt"
+	"io"
 	"net"
 	"runtime"
 	"sort"
@@ -20,6 +21,7 @@ import (
 	"tunnox-core/internal/core/dispose"
 	"tunnox-core/internal/core/storage/memory"
 	"tunnox-core/internal/protocol/session"
+	stun "tunnox-core/internal/protocol/session/tunnel"
 	"tunnox-core/internal/stream"
 )
 
@@ -34,13 +36,21 @@ type gatedRes struct {
 	count  atomic.Int32
 	log    *[]int
 	mu     *sync.Mutex
+	ev     *[][]int
+	inside func(r *gatedRes) // runs inside Dispose (ids 200..299 register resource id+100 on the same manager)
 }
 
 func (r *gatedRes) Dispose() error {
 	r.count.Add(1)
 	r.mu.Lock()
 	*r.log = append(*r.log, r.id)
+	if r.ev != nil {
+		*r.ev = append(*r.ev, []int{0, r.id})
+	}
 	r.mu.Unlock()
+	if r.inside != nil {
+		r.inside(r)
+	}
 	if r.gate != nil {
 		<-r.gate
 	}
@@ -99,6 +109,9 @@ func runResMgr(c caseIn) out {
 			close(gate)
 		}
 	}
+	evlog := [][]int{} // unified order of events since the start: [0, id] = Dispose(id) entered, [1, id] = Register(id) succeeded
+	during := map[int]bool{} // registrations (index into res) made while a DisposeAll was running
+	var resMu sync.Mutex
 	res := []*gatedRes{} // one entry per successful registration
 	registered := []int{} // indices into res
 	mustDispose := map[int]bool{}
@@ -135,12 +148,34 @@ func runResMgr(c caseIn) out {
 	for _, e := range c.Events {
 		switch e.Op {
 		case "register":
-			r := &gatedRes{id: e.A, failIt: e.B != 0, log: &dlog, mu: &mu}
-			if e.A >= 100 {
+			r := &gatedRes{id: e.A, failIt: e.B != 0, log: &dlog, mu: &mu, ev: &evlog}
+			if e.A >= 100 && e.A < 200 {
 				r.gate = gate
 			}
+			if e.A >= 200 && e.A < 300 { // its Dispose registers another resource on the same manager
+				r.inside = func(self *gatedRes) {
+					nr := &gatedRes{id: self.id + 100, log: &dlog, mu: &mu, ev: &evlog}
+					if err := rm.Register(fmt.Sprint("r", nr.id), nr); err == nil {
+						resMu.Lock()
+						res = append(res, nr)
+						during[len(res)-1] = true
+						resMu.Unlock()
+						mu.Lock()
+						evlog = append(evlog, []int{1, nr.id})
+						mu.Unlock()
+					}
+				}
+			}
 			if err := rm.Register(fmt.Sprint("r", e.A), r); err == nil {
+				resMu.Lock()
 				res = append(res, r)
+				if len(helpers) > 0 && !gateOpen {
+					during[len(res)-1] = true
+				}
+				resMu.Unlock()
+				mu.Lock()
+				evlog = append(evlog, []int{1, e.A})
+				mu.Unlock()
 				registered = append(registered, len(res)-1)
 				results = append(results, "ok")
 			} else {
@@ -167,6 +202,9 @@ func runResMgr(c caseIn) out {
 			for _, x := range registered {
 				mustDispose[x] = true
 			}
+			mu.Lock()
+			evlog = append(evlog, []int{2, 0}) // a DisposeAll starts
+			mu.Unlock()
 			blocked := false
 			for _, x := range registered {
 				if res[x].id >= 100 && !gateOpen {
@@ -193,6 +231,9 @@ func runResMgr(c caseIn) out {
 			for _, x := range registered {
 				mustDispose[x] = true
 			}
+			mu.Lock()
+			evlog = append(evlog, []int{2, 0}) // a DisposeAll starts (inside DisposeWithTimeout's helper)
+			mu.Unlock()
 			r := rm.DisposeWithTimeout(time.Duration(e.A) * time.Millisecond)
 			if len(r.Errors) == 1 && r.Errors[0].ResourceName == "timeout" {
 				timedOut++
@@ -249,6 +290,14 @@ func runResMgr(c caseIn) out {
 	for _, r := range res {
 		counts = append(counts, []int{r.id, int(r.count.Load())})
 	}
+	still := map[string]bool{}
+	for _, n := range rm.ListResources() {
+		still[n] = true
+	}
+	o["still_registered"] = rm.ListResources()
+	mu.Lock()
+	o["events"] = append([][]int{}, evlog...)
+	mu.Unlock()
 	o["dispose_log"], o["counts"], o["results"], o["timed_out"], o["left"], o["remaining"] = dl, counts, results, timedOut, left, rm.GetResourceCount()
 	if ok, _ := o["prop_ok"].(bool); !ok {
 		return o
@@ -258,6 +307,9 @@ func runResMgr(c caseIn) out {
 	}
 	for i, r := range res {
 		n := int(r.count.Load())
+		if during[i] && n == 0 && !still[fmt.Sprint("r", r.id)] {
+			return fail(o, "resmgr-resource-lost", fmt.Sprintf("history %v: resource %d, registered while a DisposeAll was running, was neither disposed nor is it registered afterwards", c.Events, r.id))
+		}
 		if n > 1 || (mustDispose[i] && n != 1) {
 			return fail(o, "resmgr-dispose-count", fmt.Sprintf("history %v: resource %d (registration #%d) was disposed %d time(s), want exactly 1", c.Events, r.id, i, n))
 		}
@@ -364,6 +416,142 @@ func runSessionOverlap(c caseIn) out {
 		if ok, _ := o["prop_ok"].(bool); ok {
 			fail(o, "session-goroutine-leak", "goroutines left after SessionManager.Close: "+strings.Join(left, "; "))
 		}
+	}
+	return o
+}
+
+// ---------------------------------------------------------------------------------------------------
+// bridge_throttle: a bandwidth-limited bridge is closed while a copy direction waits for tokens
+// ---------------------------------------------------------------------------------------------------
+
+// chunkConn hands over ONE chunk on its first Read and then blocks until closed; writes are swallowed.
+type chunkConn struct {
+	chunk  int
+	given  atomic.Bool
+	closed chan struct{}
+	conce  sync.Once
+	closes atomic.Int32
+}
+
+func newChunkConn(n int) *chunkConn { return &chunkConn{chunk: n, closed: make(chan struct{})} }
+func (c *chunkConn) Read(p []byte) (int, error) {
+	if c.chunk > 0 && c.given.CompareAndSwap(false, true) {
+		n := c.chunk
+		if n > len(p) {
+			n = len(p)
+		}
+		return n, nil
+	}
+	<-c.closed
+	return 0, io.EOF
+}
+func (c *chunkConn) Write(p []byte) (int, error) {
+	select {
+	case <-c.closed:
+		return 0, io.ErrClosedPipe
+	default:
+		return len(p), nil
+	}
+}
+func (c *chunkConn) Close() error {
+	c.closes.Add(1)
+	c.conce.Do(func() { close(c.closed) })
+	return nil
+}
+func (c *chunkConn) LocalAddr() net.Addr                { return stallAddr{} }
+func (c *chunkConn) RemoteAddr() net.Addr               { return stallAddr{} }
+func (c *chunkConn) SetDeadline(t time.Time) error      { return nil }
+func (c *chunkConn) SetReadDeadline(t time.Time) error  { return nil }
+func (c *chunkConn) SetWriteDeadline(t time.Time) error { return nil }
+
+func bridgeWaitingForTokens() bool {
+	buf := make([]byte, 4<<20)
+	buf = buf[:runtime.Stack(buf, true)]
+	for _, g := range strings.Split(string(buf), "\n\n") {
+		if strings.Contains(g, "(*Bridge).waitForTokens") || (strings.Contains(g, "(*Bridge).CopyWithControl") && (strings.Contains(g, "rate.(*Limiter)") || strings.Contains(g, "time.Sleep"))) {
+			return true
+		}
+	}
+	return false
+}
+
+// runBridgeThrottle: bandwidth limit `reads` bytes/s (burst 2x); the source (side 0) or the target (side 1) hands over one
+// chunk of `point` bytes, far more than the bucket holds, so the copy direction parks waiting for tokens; then K Close calls.
+// Required: every Close returns within the watchdog, Start returns, no (*Bridge). goroutine remains.
+func runBridgeThrottle(c caseIn) out {
+	o := out{"prop_ok": true}
+	cc := newGatedCC()
+	cc.free = true
+	ctx, cancel := context.WithCancel(context.Background())
+	defer cancel()
+	src, tgt := newChunkConn(0), newChunkConn(0)
+	if c.Side == 0 {
+		src.chunk = c.Point
+	} else {
+		tgt.chunk = c.Point
+	}
+	stc, ttc := &fakeTC{id: "s", conn: src}, &fakeTC{id: "t", conn: tgt}
+	b := stun.NewBridge(ctx, &stun.BridgeConfig{TunnelID: "bt", MappingID: "m1", CloudControl: cc, SourceTunnelConn: stc, BandwidthLimit: int64(c.Reads)})
+	b.SetTargetConnection(ttc)
+	startDone := make(chan struct{})
+	go func() { b.Start(); close(startDone) }()
+	parked := false
+	for dl := time.Now().Add(waitLong); time.Now().Before(dl); {
+		if bridgeWaitingForTokens() {
+			parked = true
+			break
+		}
+		time.Sleep(500 * time.Microsecond)
+	}
+	o["parked_in_throttle"] = parked
+	if !parked {
+		b.Close()
+		src.Close()
+		tgt.Close()
+		return fail(o, "bridge-throttle-setup", "the copy direction never waited for bandwidth tokens")
+	}
+	k := c.K
+	if k < 1 {
+		k = 1
+	}
+	var wg sync.WaitGroup
+	for i := 0; i < k; i++ {
+		wg.Add(1)
+		go func() { defer wg.Done(); b.Close() }()
+	}
+	closeDone := make(chan struct{})
+	go func() { wg.Wait(); close(closeDone) }()
+	closeReturned, startReturned := true, true
+	select {
+	case <-closeDone:
+	case <-time.After(3 * time.Second):
+		closeReturned = false
+	}
+	select {
+	case <-startDone:
+	case <-time.After(3 * time.Second):
+		startReturned = false
+	}
+	var left []string
+	for dl := time.Now().Add(time.Second); ; {
+		left = bridgeGoroutines()
+		if len(left) == 0 || time.Now().After(dl) || !startReturned {
+			break
+		}
+		time.Sleep(2 * time.Millisecond)
+	}
+	o["close_returned"], o["start_returned"], o["left"], o["disposed"] = closeReturned, startReturned, left, b.IsClosed()
+	side := []string{"source->target", "target->source"}[c.Side&1]
+	what := fmt.Sprintf("bridge limited to %d B/s, %s copy holding a %d-byte chunk and waiting for tokens, %d Close call(s)", c.Reads, side, c.Point, k)
+	switch {
+	case !closeReturned:
+		return fail(o, "bridge-close-blocked-by-stalled-write", what+": Close did not return within 3 s; bridge goroutines: "+strings.Join(left, ", "))
+	case !startReturned:
+		return fail(o, "bridge-throttle-wait-not-cancelled", what+": Close returned but Start did not return within 3 s (the token wait is not tied to the bridge context); bridge goroutines: "+strings.Join(left, ", "))
+	case len(left) > 0:
+		return fail(o, "bridge-goroutine-leak", what+": goroutines left after Close: "+strings.Join(left, ", "))
+	case stc.closes.Load() != 1 || ttc.closes.Load() != 1 || !b.IsClosed():
+		return fail(o, "bridge-close-count", fmt.Sprintf("%s: tunnel connections closed %d/%d times, disposed=%v", what, stc.closes.Load(), ttc.closes.Load(), b.IsClosed()))
 	}
 	return o
 }
